@@ -827,9 +827,8 @@ impl CertificateParams {
 								oid::BASIC_CONSTRAINTS,
 								true,
 								|writer| {
-									writer.write_sequence(|writer| {
-										writer.next().write_bool(false); // cA flag
-									});
+									// cA defaults to FALSE and DER forbids encoding default values
+									writer.write_sequence(|_writer| {});
 								},
 							);
 						},
